@@ -1,42 +1,25 @@
-"""Per-property configuration of ./check (which generated files, which Lean modules, which harness subcommand)."""
+"""Per-property configuration of ./check: one file tools/reg/Cxx.py per claimed property, each defining CFG."""
+import os
+import importlib.util
 
 GLOBAL_TRUSTED = [
     "Lean 4.33.0 kernel (thorough tier: re-checked by leanchecker); axioms allowed: propext, Classical.choice, Quot.sound",
     "tools/translate.py (fail-closed translator of the listed source fragments)",
-    "vharness (calls the real functions in-process and reports faithfully), vmodel driver parser, the diff in ./check",
+    "the harness binaries (call the real functions in-process and report faithfully), the vmodel driver parsers, the diff in ./check",
     "correspondence is differential testing: agreement is shown on the generated operations only",
 ]
 
-# commits in /repo that add the cfg/feature-guarded hooks
+# commits in /repo that add the feature-guarded hooks (filled by hand when a hook commit is made)
 HOOK_COMMITS = []
 
 # reason shown in MANIFEST.not_applicable for properties that are not claimed (default text otherwise)
 NOT_CLAIMED = {}
 
-REGISTRY = {
-    "C07": {
-        "gen": ["Thresholds"],
-        "props": ["EraVerif.Props.C07"],
-        "required_theorems": ["five_f_plus_one_le", "two_quorums_share_gt_f", "commit_timeout_share_subquorum_correct",
-                              "conflicting_reports_below_subquorum", "max_faulty_no_overflow", "quorum_no_overflow",
-                              "subquorum_no_overflow", "max_faulty_toNat", "quorum_toNat", "subquorum_toNat",
-                              "total_weight_checked"],
-        "technique": "Lean 4 theorems over all UInt64 on definitions regenerated from schedule.rs (translator) + differential run",
-        "level_text": "Proof: for every total weight n in [1, 2^64-1] the regenerated max_faulty_weight / quorum_threshold / "
-                      "subquorum_threshold satisfy 5f+1<=n, 2(n-f)-n>f, 2(n-f)-n-f=n-3f, 2f<n-3f, and no intermediate "
-                      "operation overflows or underflows (checked evaluation never fails; wrapping UInt64 = Nat value). "
-                      "The definitions are re-translated from schedule.rs on every run, so the theorems are re-proved "
-                      "against the current source; the real functions are also compared with the definitions on ~10^4 weights.",
-        "level_note": "Full strength for the property as stated. Schedule::new's checked_add fold is modelled by hand (total_weight_checked).",
-        "harness": "c07",
-        "n": {"quick": 10000, "thorough": 2000000},
-        "rule": "total weights: 1..200, ±6 around powers of two / u64::MAX/{2,3,5}, the top 16 values of u64, and N random "
-                "values with uniformly random bit length; each is one op; all ops are non-trivial (pure function, every "
-                "input yields numbers that are compared); distinct = distinct n",
-        "trusted": ["the Rust→Lean expression translation of the three one-line functions (literals, + - * /, calls)"],
-        "assumptions": ["u64 arithmetic of the release profile wraps; the checked (`_chk`) definitions additionally show that "
-                        "no operation would overflow/underflow, so the dev profile computes the same values"],
-        "explanation": "theorems over the regenerated threshold functions for all n in [1, 2^64-1]; K compares the real "
-                       "functions with the regenerated Lean definitions; S evaluates the inequalities on the real results",
-    },
-}
+REGISTRY = {}
+_d = os.path.join(os.path.dirname(os.path.abspath(__file__)), "reg")
+for _f in sorted(os.listdir(_d)):
+    if _f.startswith("C") and _f.endswith(".py"):
+        _spec = importlib.util.spec_from_file_location("reg_" + _f[:-3], os.path.join(_d, _f))
+        _m = importlib.util.module_from_spec(_spec)
+        _spec.loader.exec_module(_m)
+        REGISTRY[_f[:-3]] = _m.CFG
